@@ -1,4 +1,5 @@
 import GeomV.C03.LemmasMCentroid
+import GeomV.C03.LemmasBBox
 import GeomV.C03.ProofsReal
 /-!
 # C03 — property theorems (exact part)
@@ -355,5 +356,70 @@ example : List.Forall₂ (fun ss p => ss.length = p.length) exMSpell exMP := by
   unfold exMSpell exMP; exact .cons rfl (.cons rfl .nil)
 example : (∀ p ∈ exMP, ValidPoly p = true) ∧ (∀ p' ∈ List.zipWith respell exMSpell exMP, PipAgrees p' = true) ∧
     ((exMP.flatMap weights).map (·.1)).sum ≠ 0 := by decide +kernel
+
+
+/-- **Centroid clause, assembled.**  For a valid polygon whose holes are wound against its shell and
+any spelling that keeps that (all rings reversed together or none; any start vertices; closed or
+not), `Polygon.Centroid` returns — fault-free and finite — the area-weighted centroid of the base
+polygon.  `hW`: the signed areas do not cancel (true of every genuinely valid polygon; explicit and
+decidable like `HolesFit`). -/
+theorem C03_centroid_valid (p : Poly) (ss : List Spell) (hlen : ss.length = p.length)
+    (b : Bool) (hb : ∀ s ∈ ss, s.rev = b)
+    (hv : ValidPoly p = true) (halt : Alternating p = true)
+    (hW : (p.map fun r => shoelace2 r / 2).sum ≠ 0) :
+    polygonCentroid (respell ss p) = .ok (.fin (Spec.centroid p).x, .fin (Spec.centroid p).y) := by
+  have h : ∀ r ∈ p, shoelace2 r ≠ 0 := by
+    intro r hr
+    cases p with
+    | nil => simp at hr
+    | cons shell holes =>
+      simp only [ValidPoly, Bool.and_eq_true, List.all_eq_true] at hv
+      exact shoelace_ne_of_simple (hv.1.1.1 r hr)
+  have h' : ∀ r' ∈ respell ss p, shoelace2 r' ≠ 0 := by
+    intro r' hr'
+    obtain ⟨s, _, r, hr, e⟩ := mem_respell hr'
+    rw [e, shoelace2_ap]; have := h r hr
+    split <;> simpa using this
+  let σ : Rat := if b then -1 else 1
+  have hσ : σ ≠ 0 := by simp only [σ]; split <;> norm_num
+  have e3 := sum_map_respell (fun r => shoelace2 r / 2) σ ss p hlen
+    (by intro s hs r; simp only [shoelace2_ap, hb s hs, σ]; ring)
+  have hW' : ((respell ss p).map fun r => shoelace2 r / 2).sum ≠ 0 := by
+    rw [e3]; exact mul_ne_zero hσ hW
+  rw [C03_centroid _ h' hW', C03_centroid_invariant p ss hlen b hb h, C03_centroid_true p halt h]
+
+/-- non-vacuity: `exPoly` with the hole reversed is alternating -/
+def exPolyAlt : Poly := [[⟨0,0⟩, ⟨10,0⟩, ⟨10,10⟩, ⟨0,10⟩], [⟨4,7⟩, ⟨6,7⟩, ⟨6,4⟩, ⟨4,4⟩]]
+example : ValidPoly exPolyAlt = true ∧ Alternating exPolyAlt = true ∧
+    (exPolyAlt.map fun r => shoelace2 r / 2).sum ≠ 0 := by decide +kernel
+
+
+/-- **"hence inside the bounding box" — partial.**  For a single ring `v0 :: rest` (open spelling)
+that is star-shaped from its first vertex in the sense that all fan triangles `(v0, v_i, v_{i+1})`
+have the same orientation (every convex ring, started anywhere, qualifies), with non-zero area, the
+ring centroid lies in every axis-parallel box that contains the vertices — in particular in the
+bounding box.
+
+Full statement, NOT proved: for every valid polygon (shell and holes, arbitrary simple rings) the
+centroid lies in the bounding box; that needs a triangulation of an arbitrary simple polygon with
+holes.  It remains a per-case check of the judge (SPEC `outside the bounding box`). -/
+theorem C03_centroid_bbox_partial (v0 : P) (rest : List P) (lo hi : P)
+    (hbox : ∀ v ∈ v0 :: rest, lo.x ≤ v.x ∧ v.x ≤ hi.x ∧ lo.y ≤ v.y ∧ v.y ≤ hi.y)
+    (hfan : (∀ e ∈ pairs rest, 0 ≤ tri2 v0 e.1 e.2) ∨ (∀ e ∈ pairs rest, tri2 v0 e.1 e.2 ≤ 0))
+    (hA : shoelace2 (v0 :: rest) ≠ 0) :
+    lo.x ≤ (ringCentroid (v0 :: rest)).x ∧ (ringCentroid (v0 :: rest)).x ≤ hi.x ∧
+    lo.y ≤ (ringCentroid (v0 :: rest)).y ∧ (ringCentroid (v0 :: rest)).y ≤ hi.y := by
+  unfold ringCentroid
+  rw [shoelace2_eq'] at hA ⊢
+  rw [momX_eq', momY_eq']
+  have hx := fan_centroid_coord v0 rest (·.x) cxF cxF_tri (fun a b => cxF_anti a b) lo.x hi.x
+    (fun v hv => ⟨(hbox v hv).1, (hbox v hv).2.1⟩) hfan hA
+  have hy := fan_centroid_coord v0 rest (·.y) cyF cyF_tri (fun a b => cyF_anti a b) lo.y hi.y
+    (fun v hv => ⟨(hbox v hv).2.2.1, (hbox v hv).2.2.2⟩) hfan hA
+  exact ⟨hx.1, hx.2, hy.1, hy.2⟩
+
+/-- non-vacuity: an L-shaped (non-convex) ring that is star-shaped from its first vertex -/
+example : let r : List P := [⟨0,0⟩, ⟨4,0⟩, ⟨4,2⟩, ⟨2,2⟩, ⟨2,4⟩, ⟨0,4⟩]
+    (∀ e ∈ pairs r.tail, 0 ≤ tri2 ⟨0,0⟩ e.1 e.2) ∧ shoelace2 r ≠ 0 := by decide +kernel
 
 end GeomV.C03
